@@ -1,4 +1,5 @@
 import DoitModel.Proofs.DelayedWF
+import DoitModel.Proofs.C15Obey3
 import DoitModel.Model.DelayedSel
 /-! # C15 — delayed task creation happens once, after its trigger
 
@@ -85,13 +86,36 @@ def dynDeps (s : Sys) (t : Name) : List Name :=
   | some td => td.deps
   | none => []
 
-/-- **created_obey**, full statement (ordering half NOT proved here; the once-only half is `C15_created_at_most_once`; evaluated by the monitor on every implementation trace with
-    the dependency table of the case): tasks registered by creators obey the C01/C02 rules — a `start` is preceded
-    by a good report of every dependency, at most one start and one terminal report per task.  The base run model
-    proves these for a static table (`Props/C01`, `Props/C02`); its step function cannot be instantiated with a
-    table that changes at run time, so the statement is kept as a definition. -/
-def C15_created_obey_full : Prop :=
-  ∀ (inp : Input), trigB inp = true → ∀ s, Reach inp s → obeyOK (dynDeps s) inp.noAct s.events = true
+/-- **created_obey**, ordering half and once-only half together, over the *dynamic* dependency table
+    `nodeDeps s` = task_deps of the `Task` object the node of a task holds (for a task a creator registered: the
+    object the creator yielded, implicit deps through targets included; for a placeholder nobody re-defined: the
+    mutated placeholder): in every reachable state, under every schedule and runner, every `start t` in the trace is
+    preceded by a good report (`success` / `skipUtd`) of every dependency — static or created — of the object that is
+    executed, there is no second start and no second terminal report, `success`/`failure` only after the start,
+    `unmet`/`skipUtd` only without one.  This is the statement the monitor evaluates (`obeyOK`).
+    Proof: `Proofs/C15Obey*.lean` (`NodeG`: while a node is not marked `bad` every dependency of its task is pending,
+    in the snapshot, awaited or good; a reset node re-processes all dependencies of its new task). -/
+theorem C15_created_obey (inp : Input) (h : trigB inp = true) (s : Sys) (hr : Reach inp s) :
+    obeyOK (nodeDeps s) inp.noAct s.events = true :=
+  (obey_reach (trigWF_of_bool h) hr).core.obey
+
+/-- the ordering half spelled out: wherever `start t` occurs in the trace, every task_dep of the object the node of
+    `t` holds (it does not change after the start) has its good report *earlier* in the trace -/
+theorem C15_created_start_after_deps (inp : Input) (h : trigB inp = true) (s : Sys) (hr : Reach inp s)
+    (t : Name) (post pre : List Ev) (hev : s.events = post ++ Ev.start t :: pre) :
+    ∀ d ∈ nodeDeps s t, Ev.success d ∈ pre ∨ Ev.skipUtd d ∈ pre :=
+  obeyOK_start_split _ _ _ t post pre hev (C15_created_obey inp h s hr)
+
+/-- … and over the task table itself (`dynDeps s` = task_deps of `TaskControl.tasks[t]` in state `s`), in every
+    state in which the table entry of every started task is still the object its node holds.  The two differ only
+    when a creator re-defines the name of a task that was already handed to execution (`self.tasks[nt.name] = nt`
+    has no guard); the old object ran with *its* dependencies (`C15_created_obey`), the new one is never executed
+    (`C15_created_at_most_once`).  A decidable input condition that excludes re-definition is not proved here. -/
+theorem C15_created_obey_table (inp : Input) (h : trigB inp = true) (s : Sys) (hr : Reach inp s)
+    (hsame : ∀ t, Ev.start t ∈ s.events → nodeDeps s t = dynDeps s t) :
+    obeyOK (dynDeps s) inp.noAct s.events = true := by
+  rw [← obeyOK_congr (nodeDeps s) (dynDeps s) inp.noAct s.events hsame]
+  exact C15_created_obey inp h s hr
 
 /-- a `_regex_target…` placeholder of the initial table still carries its loader and has the word as its file_dep -/
 def rxWF (inp : Input) : Prop :=
